@@ -3,4 +3,4 @@ import enginecheck as ec
 from props import engcommon
 LEVEL = 'proof'; TRUSTED = engcommon.TRUSTED_ENGINE; ASSUMPTIONS = engcommon.ASSUMPTIONS_ENGINE
 def run(ctx):
-    engcommon.run_engine_property(ctx, 'C02', [('converge', lambda h, st, b, prev: ec.oracle_c02(h, st, b, *prev))], faults=0.15, feat=dict(dyndep=0.25))
+    engcommon.run_engine_property(ctx, 'C02', scan_accept=700, oracles=[('converge', lambda h, st, b, prev: ec.oracle_c02(h, st, b, *prev))], faults=0.15, feat=dict(dyndep=0.25))
